@@ -84,7 +84,7 @@ def _wasm_forbidden(exclude=()):
 
 def wasm_profile(exclude=(), **kw):
     base = dict(name="c23", ptr_bits=32, rotates=False, copyblob=False, global_refs=False, forbidden=_wasm_forbidden(exclude),
-                permute_blocks=True, max_funcs=3, max_blocks=8, distinct_cjmp_targets=True, obs_type="i64", literals=False)
+                permute_blocks=True, max_funcs=3, max_blocks=8, distinct_cjmp_targets=True, obs_type="i64", literals=False, indirect_boost=2)
     base.update(kw)
     return genir.Profile(**base)
 
@@ -382,9 +382,14 @@ def run_case(case, stats=None):
     m_ref, nbufs = build_module(case)
     m_tr, _ = build_module(case)
     init_mode = case.get("init", "stores")
+    has_data = any(v.value for v in m_ref.variables) or nbufs > 0
     ins = instrument(m_ref, nbufs, init_mode)
     instrument(m_tr, nbufs, init_mode)
     info["classes"] = module_classes(m_ref, case)
+    if has_data:
+        info["classes"].append("globals_with_initial_data:" + ("data_segment" if init_mode == "data" else "written_by_c23_init"))
+    if init_mode == "data" and (has_data or "literal_data" in info["classes"]):
+        info["classes"].append("needs_data_segment")
     byname = {f.name: f for f in m_ref.functions}
     # reference first: calls whose execution is undefined in IR terms are not run at all
     refs = []
@@ -525,8 +530,6 @@ def module_classes(m, case):
     cl = set()
     cl.add("source:" + ("genir" if "module" in case else "c_to_ir"))
     cl.add("init:" + case.get("init", "stores"))
-    if any(v.value for v in m.variables) or case.get("init", "stores") == "stores":
-        cl.add("globals_with_initial_data")
     if m.externals:
         cl.add("externals")
     for f in m.functions:
@@ -754,7 +757,7 @@ def full_profile(exclude=()):
     """Full instruction menu (what ir_to_wasm does not implement is REJECTED and counted by class) minus the shapes
     of the open findings."""
     forb = [x for x in _wasm_forbidden(exclude) if x not in set(_wasm_forbidden(()))]
-    return genir.Profile(name="c23-full", ptr_bits=32, permute_blocks=True, obs_type="i64", forbidden=forb)
+    return genir.Profile(name="c23-full", ptr_bits=32, permute_blocks=True, obs_type="i64", indirect_boost=2, forbidden=forb)
 
 
 def calls_for(draw, desc, profile):
@@ -844,7 +847,7 @@ def run(ctx):
     ctx.extra["translated"] = h.get("translated", 0)
     ctx.extra["rejected"] = h.get("rejected", 0)
     unreachable = []
-    if h.get("translated[static_data]", 0) == 0:
+    if h.get("needs_data_segment", 0) == 0:
         unreachable.append("globals/literals with STATIC initial data: ir_to_wasm rejects every module that needs a data segment "
                            "(ValueError in components.Data, see fixes/C23-data-segment.diff); initial data is covered only "
                            "through the generated c23_init() stores")
